@@ -1,5 +1,5 @@
 /* C08: permutation and byte-range primitives through the public interface.
- * usage: c08 perm <first_round|all> <tier>     |   c08 bytes <tier> */
+ * usage: c08 perm <first_round|all> <tier>     |   c08 bytes <tier>   |   c08 seq <depth> */
 #include "hx.h"
 #include "ref.h"
 #include <ascon/permutation.h>
@@ -82,11 +82,68 @@ static void bytes(int tier)
     hx_sample("byte-range ops: all 861 (offset,size) x 7 op variants x {zero, 320 unit state bits, unit data bits, dense pairs, all-ones} (%ld calls)", nbytes);
 }
 
+/* every sequence of operations up to a depth on two real states (a, b) against two 40-byte models:
+ * catches representation drift between operations (lazy conversions, partial-word updates, copy), which single calls from a freshly loaded state cannot */
+enum { S_PERM0, S_PERM6, S_PERM11, S_ADD_0_8, S_ADD_3_7, S_ADD_33_7, S_OVER_0_16, S_OVER_5_1, S_ZERO_8_32, S_ZERO_39_1, S_XOVER_0_8, S_XOVER_7_9, S_XADD_12_20, S_EXTRACT_1_39,
+       S_COPY_AB, S_COPY_BA, S_RELACQ, S_SWAP, S_NOPS };
+static const char *sname[] = {"permute(0)", "permute(6)", "permute(11)", "add(0,8)", "add(3,7)", "add(33,7)", "overwrite(0,16)", "overwrite(5,1)", "zero(8,32)", "zero(39,1)", "xover(0,8)", "xover-inplace(7,9)",
+                              "xadd(12,20)", "extract(1,39)", "copy(a->b)", "copy(b->a)", "release+acquire", "work-on-b"};
+static long nseq, nseqops;
+static void seq_run(const int *ops, int n, int startpat)
+{
+    ascon_state_t A, B; uint8_t ma[40], mb[40], d[40], out[40], eo[40], got[40];
+    ascon_state_t *cur = &A, *oth = &B; uint8_t *mc = ma, *mo = mb;
+    hx_fill(ma, 40, HX_P_DENSE, 400 + startpat); hx_fill(mb, 40, HX_P_DENSE2, 500 + startpat);
+    if (startpat == 0) { memset(ma, 0, 40); memset(mb, 0xff, 40); }
+    load(&A, ma); load(&B, mb);
+    char trace[256]; trace[0] = 0;
+    for (int k = 0; k < n; k++) {
+        int op = ops[k]; unsigned off = 0, size = 0; int chk_out = 0;
+        hx_fill(d, 40, HX_P_DENSE, 600 + 7 * k + op);
+        strncat(trace, sname[op], sizeof trace - strlen(trace) - 2); strncat(trace, ";", sizeof trace - strlen(trace) - 1);
+        switch (op) {
+        case S_PERM0: case S_PERM6: case S_PERM11: { int r = op == S_PERM0 ? 0 : op == S_PERM6 ? 6 : 11; ascon_permute(cur, (uint8_t)r); ref_permute(mc, r); break; }
+        case S_ADD_0_8: off = 0; size = 8; goto add; case S_ADD_3_7: off = 3; size = 7; goto add; case S_ADD_33_7: off = 33; size = 7;
+        add: ascon_add_bytes(cur, d, off, size); for (unsigned i = 0; i < size; i++) mc[off + i] ^= d[i]; break;
+        case S_OVER_0_16: off = 0; size = 16; goto over; case S_OVER_5_1: off = 5; size = 1;
+        over: ascon_overwrite_bytes(cur, d, off, size); memcpy(mc + off, d, size); break;
+        case S_ZERO_8_32: off = 8; size = 32; goto zero; case S_ZERO_39_1: off = 39; size = 1;
+        zero: ascon_overwrite_with_zeroes(cur, off, size); memset(mc + off, 0, size); break;
+        case S_XOVER_0_8: off = 0; size = 8; ascon_extract_and_overwrite_bytes(cur, d, out, off, size);
+            for (unsigned i = 0; i < size; i++) { eo[i] = mc[off + i] ^ d[i]; mc[off + i] = d[i]; } chk_out = 1; break;
+        case S_XOVER_7_9: off = 7; size = 9; memcpy(out, d, size); ascon_extract_and_overwrite_bytes(cur, out, out, off, size);
+            for (unsigned i = 0; i < size; i++) { eo[i] = mc[off + i] ^ d[i]; mc[off + i] = d[i]; } chk_out = 1; break;
+        case S_XADD_12_20: off = 12; size = 20; ascon_extract_and_add_bytes(cur, d, out, off, size); for (unsigned i = 0; i < size; i++) eo[i] = mc[off + i] ^ d[i]; chk_out = 1; break;
+        case S_EXTRACT_1_39: off = 1; size = 39; ascon_extract_bytes(cur, out, off, size); memcpy(eo, mc + off, size); chk_out = 1; break;
+        case S_COPY_AB: ascon_release(cur); ascon_copy(oth, cur); ascon_acquire(cur); memcpy(mo, mc, 40); break;
+        case S_COPY_BA: ascon_release(oth); ascon_copy(cur, oth); ascon_acquire(oth); memcpy(mc, mo, 40); break;
+        case S_RELACQ: ascon_release(cur); ascon_acquire(cur); break;
+        case S_SWAP: { ascon_state_t *t = cur; cur = oth; oth = t; uint8_t *m = mc; mc = mo; mo = m; break; }
+        }
+        nseqops++;
+        if (chk_out && memcmp(out, eo, size)) { hx_fail("sequence:output", "after [%s] (start %d) the output of the last call differs from the byte model", trace, startpat); break; }
+    }
+    store(cur, got); if (memcmp(got, mc, 40)) hx_fail("sequence:state", "after [%s] (start %d) the worked-on state differs from the byte model", trace, startpat);
+    store(oth, got); if (memcmp(got, mo, 40)) hx_fail("sequence:other-state", "after [%s] (start %d) the other state differs from the byte model", trace, startpat);
+    ascon_free(&A); ascon_free(&B); nseq++;
+}
+static void seqs(int depth)
+{
+    int ops[8];
+    for (int n = 1; n <= depth; n++) {
+        long total = 1; for (int k = 0; k < n; k++) total *= S_NOPS;
+        for (long c = 0; c < total; c++) { long x = c; for (int k = 0; k < n; k++) { ops[k] = (int)(x % S_NOPS); x /= S_NOPS; } for (int sp = 0; sp < 2; sp++) seq_run(ops, n, sp); }
+    }
+    hx_stat("evaluations", nseqops); hx_stat("nontrivial", nseq); hx_stat("op_sequences", nseq);
+    hx_sample("all sequences of <= %d operations from an alphabet of %d (permute at 3 rounds, 11 byte-range calls, copy both ways, release+acquire, switch object) on two live states x 2 starting values (%ld sequences)", depth, S_NOPS, nseq);
+}
+
 int main(int argc, char **argv)
 {
     hx_init();
     if (argc < 3) return 2;
     if (!strcmp(argv[1], "perm")) { int r = atoi(argv[2]); perm(r, r, atoi(argv[3])); }
+    else if (!strcmp(argv[1], "seq")) seqs(atoi(argv[2]));
     else bytes(atoi(argv[2]));
     hx_finish();
     return 0;
